@@ -265,9 +265,50 @@ func gunzip(b []byte) ([]byte, error) {
 	return io.ReadAll(r)
 }
 
-// loadGogo: the descriptor embedded (gzipped) in the gogoproto generated file, exactly as embedded,
-// plus the linked descriptor from gogoproto's own file registry.
-func loadGogo(path string) (*famFile, error) {
+// gogoLinker links the descriptors embedded in the gogoproto generated files into a registry of
+// its own. gogoproto's global registry links each file when its Go init() runs, and a same-package
+// file initialised earlier (genesis.pb.go before service.pb.go) keeps *placeholder* message types
+// for what it imports from a later one; a value generator needs the real ones. Imports that no
+// gogoproto file registers (cosmos_proto, google/api …) are taken from protoregistry.GlobalFiles.
+type gogoLinker struct {
+	files *protoregistry.Files
+	raw   map[string]*descriptorpb.FileDescriptorProto
+	errs  map[string]error
+}
+
+var (
+	linkerOnce sync.Once
+	linker     *gogoLinker
+)
+
+func theGogoLinker() *gogoLinker {
+	linkerOnce.Do(func() {
+		linker = &gogoLinker{files: new(protoregistry.Files), raw: map[string]*descriptorpb.FileDescriptorProto{}, errs: map[string]error{}}
+	})
+	return linker
+}
+
+func (l *gogoLinker) FindFileByPath(p string) (protoreflect.FileDescriptor, error) {
+	if fd, err := l.files.FindFileByPath(p); err == nil {
+		return fd, nil
+	}
+	if gogoproto.FileDescriptor(p) != nil {
+		return l.link(p)
+	}
+	return protoregistry.GlobalFiles.FindFileByPath(p)
+}
+
+func (l *gogoLinker) FindDescriptorByName(n protoreflect.FullName) (protoreflect.Descriptor, error) {
+	if d, err := l.files.FindDescriptorByName(n); err == nil {
+		return d, nil
+	}
+	return protoregistry.GlobalFiles.FindDescriptorByName(n)
+}
+
+func (l *gogoLinker) rawFile(path string) (*descriptorpb.FileDescriptorProto, error) {
+	if fdp, ok := l.raw[path]; ok {
+		return fdp, nil
+	}
 	gz := gogoproto.FileDescriptor(path)
 	if gz == nil {
 		return nil, fmt.Errorf("not registered with gogoproto")
@@ -280,9 +321,59 @@ func loadGogo(path string) (*famFile, error) {
 	if err := protov2.Unmarshal(raw, fdp); err != nil {
 		return nil, fmt.Errorf("unmarshal descriptor: %v", err)
 	}
-	fd, err := gogoproto.GogoResolver.FindFileByPath(path)
+	l.raw[path] = fdp
+	return fdp, nil
+}
+
+func (l *gogoLinker) link(path string) (protoreflect.FileDescriptor, error) {
+	if fd, err := l.files.FindFileByPath(path); err == nil {
+		return fd, nil
+	}
+	if err, bad := l.errs[path]; bad {
+		return nil, err
+	}
+	fdp, err := l.rawFile(path)
 	if err != nil {
+		l.errs[path] = err
+		return nil, err
+	}
+	l.errs[path] = fmt.Errorf("import cycle through %s", path)
+	for _, dep := range fdp.GetDependency() {
+		if gogoproto.FileDescriptor(dep) != nil {
+			if _, err := l.link(dep); err != nil {
+				err = fmt.Errorf("import %s: %v", dep, err)
+				l.errs[path] = err
+				return nil, err
+			}
+		}
+	}
+	fd, err := protodesc.NewFile(fdp, l)
+	if err == nil {
+		err = l.files.RegisterFile(fd)
+	}
+	if err != nil {
+		l.errs[path] = err
+		return nil, err
+	}
+	delete(l.errs, path)
+	return fd, nil
+}
+
+// loadGogo: the descriptor embedded (gzipped) in the gogoproto generated file, exactly as embedded,
+// linked against the other gogoproto-embedded descriptors; the file must also be known to
+// gogoproto's own file registry.
+func loadGogo(path string) (*famFile, error) {
+	l := theGogoLinker()
+	fdp, err := l.rawFile(path)
+	if err != nil {
+		return nil, err
+	}
+	if _, err := gogoproto.GogoResolver.FindFileByPath(path); err != nil {
 		return nil, fmt.Errorf("gogo file registry: %v", err)
+	}
+	fd, err := l.link(path)
+	if err != nil {
+		return nil, fmt.Errorf("linking the embedded descriptor: %v", err)
 	}
 	return &famFile{fd: fd, fdp: fdp}, nil
 }
